@@ -119,7 +119,7 @@ def witness_on_real_code():
             "missed_by_the_real_function": len(idx) == 0}
 
 
-ENTRY_THEOREMS = ["Matid.Props.SbcEntry." + t for t in ("fixup_inside", "scale_ge_one", "displacement_scaled")] + ["Matid.Props.C01.entry_rules_ok"]
+ENTRY_THEOREMS = ["Matid.Props.SbcEntry." + t for t in ("fixup_inside", "scale_ge_one", "displacement_scaled")] + ["Matid.Props.C01.entry_rules_ok", "Matid.Props.C13.constructors_forward_radii"]
 
 
 def entry_items(a, system_seen, rng, kind=""):
@@ -230,7 +230,7 @@ def check(ctx, broken, adaptive_records=None, entry=None):
         terr = common.regen(ctx, ("sbc_rule",))
         if terr:
             broken.append(("sbc-rule-translator", terr))
-        ok, info = common.prove(ctx, "MatidProps.C01", ENTRY_THEOREMS, extra_imports=("MatidProps.SbcEntryProps",), gen_targets=("MatidProps.SbcEntryProps",))
+        ok, info = common.prove(ctx, "MatidProps.C01", ENTRY_THEOREMS, extra_imports=("MatidProps.SbcEntryProps", "MatidProps.C13"), gen_targets=("MatidProps.SbcEntryProps", "MatidProps.C13"))
         if not ok:
             broken.append(("entry-glue-proof", info))
         try:
